@@ -65,7 +65,7 @@ func (v *dsVote) IsConflictWith(other module.DoubleSignData) bool {
 		return false
 	}
 	nid1, _ := v.msg.NID()
-	nid2, _ := v.msg.NID()
+	nid2, _ := v2.msg.NID()
 	if !matchNID(nid1, nid2) {
 		return false
 	}
